@@ -12,10 +12,7 @@ import (
 // If the ownership of a live name changes, the sale listing was created by the current owner and
 // the current owner was paid the listed price; a failed purchase changes nothing.
 func VH_C08_buy() {
-	zzverif.OpenStore("rns")
-	bank := zzverif.NewBank()
-	k := zzKeeper(bank)
-	ctx, h := zzCtx()
+	k, bank, ctx, h, _ := zzSetup()
 	buyer := zzverif.NondetString("buyer")
 	nm := zzverif.NondetString("name")
 
@@ -51,14 +48,14 @@ func VH_C08_buy() {
 		}
 	}
 
-	err, _ := zzverif.Deliver(func() error { return k.BuyName(ctx, buyer, nm) })
+	err, pan := zzverif.Deliver(func() error { return k.BuyName(ctx, buyer, nm) })
 
 	post, pfound := k.GetNames(ctx, n, tld)
 	if live {
 		zzverif.Assert(pfound, "C08/buy-live-name-still-exists")
 		if post.Value != pre.Value {
 			zzverif.Cover("C08/buy-ownership-moved")
-			zzverif.Assert(err == nil && listed, "C08/buy-needs-listing")
+			zzverif.Assert(zzverif.Ok(err, pan) && listed, "C08/buy-needs-listing")
 			zzverif.Assert(post.Value == buyer, "C08/buy-new-owner-is-buyer")
 			// compared as accounts (address bytes), not spellings
 			saleOwnerAddr, soerr := sdk.AccAddressFromBech32(sale.Owner)
@@ -69,10 +66,10 @@ func VH_C08_buy() {
 				zzverif.Assert(bank.ZBal(buyerAddr, price.Denom).Eq(buyerBal0.Sub(zzverif.ZOfBig(price.Amount.BigInt()))), "C08/buy-buyer-debited-price")
 			}
 		} else {
-			zzverif.Assert(post.Data == pre.Data || err == nil, "C08/buy-failed-keeps-data")
+			zzverif.Assert(post.Data == pre.Data || zzverif.Ok(err, pan), "C08/buy-failed-keeps-data")
 		}
 	}
-	if err != nil {
+	if !zzverif.Ok(err, pan) {
 		zzverif.Assert(pfound == found && (!found || (post.Value == pre.Value && post.Data == pre.Data && post.Expires == pre.Expires)), "C08/buy-failure-changes-nothing")
 		zzverif.Cover("C08/buy-fails")
 	} else {
